@@ -19,6 +19,8 @@ type CaseC08 struct {
 	Sep     string                 `json:"sep,omitempty"`
 	UsePath bool                   `json:"use_path,omitempty"` // filter clause on ValuesForPath(Steps) instead of ValuesForKey(Key)
 	Steps   []Step                 `json:"steps,omitempty"`
+	Unrelated uint16               `json:"unrelated_opts,omitempty"`
+	Alias *AliasSpec `json:"alias,omitempty"` // one container object gets a second parent in the subject Map
 }
 
 func init() {
@@ -58,6 +60,10 @@ func genC08(t *rapid.T) CaseC08 {
 	}
 	c.Conds = genCondsFrom(t, 0, 3, cands)
 	c.UsePath = usePath && len(c.Conds) > 0
+	c.Unrelated = genUnrelated(t)
+	if rapid.IntRange(0, 5).Draw(t, "alias") == 0 {
+		c.Alias = &AliasSpec{Src: rapid.IntRange(0, 30).Draw(t, "asrc"), Dst: rapid.IntRange(0, 30).Draw(t, "adst"), Key: rapid.SampledFrom(shapeKeys).Draw(t, "akey")}
+	}
 	return c
 }
 
@@ -151,7 +157,19 @@ func checkC08(c CaseC08, info *Info) *Failure {
 		return nil
 	}
 	defer resetOptions()
+	applyUnrelatedOptions(c.Unrelated)
+	info.ClassIf(c.Unrelated != 0, "unrelated options switched on")
 	subject := copyMap(c.Map)
+	if c.Alias != nil {
+		// the subject holds one container object twice; the reference sees the same Map by value
+		byValue := copyMap(c.Map)
+		if applyAlias(subject, *c.Alias, true) && applyAlias(byValue, *c.Alias, false) {
+			c.Map = byValue
+			info.Class("shared sub-structure in the subject")
+		} else {
+			subject = copyMap(c.Map)
+		}
+	}
 	mv := mxj.Map(subject)
 	js := canon(c.Map)
 
